@@ -21,7 +21,7 @@
    gateware as found did not corrupt the queue, it and this model agree. *)
 From Coq Require Import NArith List Bool Arith.
 Import ListNotations.
-From LunaLib Require Import Netlist Machine PackN.
+From LunaLib Require Import Netlist Machine PackN ListMem.
 Open Scope nat_scope.
 
 (* ------------------------------------------------------------------------------------------ *)
@@ -130,13 +130,6 @@ Record tf_state := {
   tf_r  : nat;          (* current_read_pointer *)
   tf_mem : list N;      (* backing store, depth+1 cells *)
   tf_rdata : N }.       (* data register of the synchronous, non-transparent read port *)
-
-Fixpoint upd (a : nat) (v : N) (l : list N) : list N :=
-  match l, a with
-  | [], _ => []
-  | _ :: t, O => v :: t
-  | x :: t, S a' => x :: upd a' v t
-  end.
 
 Section Model.
   Variable depth : nat.
